@@ -153,20 +153,28 @@ pub open spec fn spec_avp_list(s: Seq<u8>) -> Seq<RecV>
     }
 }
 
-pub open spec fn rec_matches(r: Result<crate::avp::AVP, crate::common::DecodeError>, s: RecV) -> bool {
-    match s {
-        RecV::Ok(v) => r is Ok && r->Ok_0.av() == v,
-        RecV::Err(None) => r is Err,
-        RecV::Err(Some(e)) => r is Err && r->Err_0 == e,
-    }
+// value part: same acceptance, equal value;  error part: identity of the error where the specification names it
+pub open spec fn rec_val(r: Result<crate::avp::AVP, crate::common::DecodeError>, s: RecV) -> bool {
+    match s { RecV::Ok(v) => r is Ok && r->Ok_0.av() == v, RecV::Err(_) => r is Err }
 }
-pub open spec fn list_matches(rs: Seq<Result<crate::avp::AVP, crate::common::DecodeError>>, ss: Seq<RecV>) -> bool {
-    rs.len() == ss.len() && forall |i: int| 0 <= i < rs.len() ==> rec_matches(#[trigger] rs[i], ss[i])
+pub open spec fn rec_err(r: Result<crate::avp::AVP, crate::common::DecodeError>, s: RecV) -> bool {
+    match s { RecV::Err(Some(e)) => r is Err ==> r->Err_0 == e, _ => true }
 }
-pub proof fn lemma_list_matches_push(rs: Seq<Result<crate::avp::AVP, crate::common::DecodeError>>, ss: Seq<RecV>,
-                                     r: Result<crate::avp::AVP, crate::common::DecodeError>, s: RecV)
-    requires list_matches(rs, ss), rec_matches(r, s),
-    ensures list_matches(rs.push(r), ss.push(s)),
+pub open spec fn list_val(rs: Seq<Result<crate::avp::AVP, crate::common::DecodeError>>, ss: Seq<RecV>) -> bool {
+    rs.len() == ss.len() && forall |i: int| 0 <= i < rs.len() ==> rec_val(#[trigger] rs[i], ss[i])
+}
+pub open spec fn list_err(rs: Seq<Result<crate::avp::AVP, crate::common::DecodeError>>, ss: Seq<RecV>) -> bool {
+    rs.len() == ss.len() ==> forall |i: int| 0 <= i < rs.len() ==> rec_err(#[trigger] rs[i], ss[i])
+}
+pub proof fn lemma_list_val_push(rs: Seq<Result<crate::avp::AVP, crate::common::DecodeError>>, ss: Seq<RecV>,
+                                 r: Result<crate::avp::AVP, crate::common::DecodeError>, s: RecV)
+    requires list_val(rs, ss), rec_val(r, s),
+    ensures list_val(rs.push(r), ss.push(s)),
+{ }
+pub proof fn lemma_list_err_push(rs: Seq<Result<crate::avp::AVP, crate::common::DecodeError>>, ss: Seq<RecV>,
+                                 r: Result<crate::avp::AVP, crate::common::DecodeError>, s: RecV)
+    requires list_err(rs, ss), rec_err(r, s), rs.len() == ss.len(),
+    ensures list_err(rs.push(r), ss.push(s)),
 { }
 
 // ---- encoders --------------------------------------------------------------------------------------
@@ -255,7 +263,7 @@ pub open spec fn g_is_err(x: Result<crate::avp::AVP, crate::common::DecodeError>
 pub open spec fn avps_view(s: Seq<crate::avp::AVP>) -> Seq<AvpV> { Seq::new(s.len(), |i: int| s[i].av()) }
 
 pub proof fn lemma_filter_ok(rs: Seq<Result<crate::avp::AVP, crate::common::DecodeError>>, ss: Seq<RecV>)
-    requires list_matches(rs, ss), recs_all_ok(ss),
+    requires list_val(rs, ss), recs_all_ok(ss),
     ensures avps_view(filter_map_spec(rs, |x| g_ok(x))) =~= recs_values(ss),
     decreases rs.len(),
 {
@@ -263,16 +271,16 @@ pub proof fn lemma_filter_ok(rs: Seq<Result<crate::avp::AVP, crate::common::Deco
     if rs.len() > 0 {
         let rs1 = rs.drop_last();
         let ss1 = ss.drop_last();
-        assert(list_matches(rs1, ss1)) by {
-            assert forall |i: int| 0 <= i < rs1.len() implies rec_matches(#[trigger] rs1[i], ss1[i]) by {
-                assert(rec_matches(rs[i], ss[i]));
+        assert(list_val(rs1, ss1)) by {
+            assert forall |i: int| 0 <= i < rs1.len() implies rec_val(#[trigger] rs1[i], ss1[i]) by {
+                assert(rec_val(rs[i], ss[i]));
             }
         }
         assert(recs_all_ok(ss1)) by {
             assert forall |i: int| 0 <= i < ss1.len() implies (#[trigger] ss1[i]) is Ok by { assert(ss[i] is Ok); }
         }
         lemma_filter_ok(rs1, ss1);
-        assert(rec_matches(rs[rs.len() - 1], ss[rs.len() - 1]));
+        assert(rec_val(rs[rs.len() - 1], ss[rs.len() - 1]));
         assert(ss[rs.len() - 1] is Ok);
         assert(rs.last() is Ok);
         let f1 = filter_map_spec(rs1, g);
@@ -284,8 +292,30 @@ pub proof fn lemma_filter_ok(rs: Seq<Result<crate::avp::AVP, crate::common::Deco
         assert(filter_map_spec(rs, g) =~= Seq::empty());
     }
 }
+// number of errors (value part) and their identities (error part) are separate facts
+pub open spec fn errs_len_match(es: Seq<crate::common::DecodeError>, ss: Seq<Option<crate::common::DecodeError>>) -> bool {
+    es.len() == ss.len()
+}
+pub proof fn lemma_filter_err_len(rs: Seq<Result<crate::avp::AVP, crate::common::DecodeError>>, ss: Seq<RecV>)
+    requires list_val(rs, ss),
+    ensures filter_map_spec(rs, |x| g_err(x)).len() == recs_errors(ss).len(),
+    decreases rs.len(),
+{
+    let g = |x: Result<crate::avp::AVP, crate::common::DecodeError>| g_err(x);
+    if rs.len() > 0 {
+        let rs1 = rs.drop_last();
+        let ss1 = ss.drop_last();
+        assert(list_val(rs1, ss1)) by {
+            assert forall |i: int| 0 <= i < rs1.len() implies rec_val(#[trigger] rs1[i], ss1[i]) by {
+                assert(rec_val(rs[i], ss[i]));
+            }
+        }
+        lemma_filter_err_len(rs1, ss1);
+        assert(rec_val(rs[rs.len() - 1], ss[rs.len() - 1]));
+    }
+}
 pub proof fn lemma_filter_err(rs: Seq<Result<crate::avp::AVP, crate::common::DecodeError>>, ss: Seq<RecV>)
-    requires list_matches(rs, ss),
+    requires list_val(rs, ss), list_err(rs, ss),
     ensures errs_match(filter_map_spec(rs, |x| g_err(x)), recs_errors(ss)),
     decreases rs.len(),
 {
@@ -293,28 +323,34 @@ pub proof fn lemma_filter_err(rs: Seq<Result<crate::avp::AVP, crate::common::Dec
     if rs.len() > 0 {
         let rs1 = rs.drop_last();
         let ss1 = ss.drop_last();
-        assert(list_matches(rs1, ss1)) by {
-            assert forall |i: int| 0 <= i < rs1.len() implies rec_matches(#[trigger] rs1[i], ss1[i]) by {
-                assert(rec_matches(rs[i], ss[i]));
+        assert(list_val(rs1, ss1)) by {
+            assert forall |i: int| 0 <= i < rs1.len() implies rec_val(#[trigger] rs1[i], ss1[i]) by {
+                assert(rec_val(rs[i], ss[i]));
+            }
+        }
+        assert(list_err(rs1, ss1)) by {
+            assert forall |i: int| 0 <= i < rs1.len() implies rec_err(#[trigger] rs1[i], ss1[i]) by {
+                assert(rec_err(rs[i], ss[i]));
             }
         }
         lemma_filter_err(rs1, ss1);
-        assert(rec_matches(rs[rs.len() - 1], ss[rs.len() - 1]));
+        assert(rec_val(rs[rs.len() - 1], ss[rs.len() - 1]));
+        assert(rec_err(rs[rs.len() - 1], ss[rs.len() - 1]));
     }
 }
 pub proof fn lemma_any_err(rs: Seq<Result<crate::avp::AVP, crate::common::DecodeError>>, ss: Seq<RecV>)
-    requires list_matches(rs, ss),
+    requires list_val(rs, ss),
     ensures seq_any(rs, |x| g_is_err(x)) <==> !recs_all_ok(ss),
 {
     let g = |x: Result<crate::avp::AVP, crate::common::DecodeError>| g_is_err(x);
     if !recs_all_ok(ss) {
         let i = choose |i: int| 0 <= i < ss.len() && !((#[trigger] ss[i]) is Ok);
-        assert(rec_matches(rs[i], ss[i]));
+        assert(rec_val(rs[i], ss[i]));
         assert(g(rs[i]));
         assert(seq_any(rs, g));
     } else {
         assert forall |i: int| 0 <= i < rs.len() implies !(#[trigger] g(rs[i])) by {
-            assert(rec_matches(rs[i], ss[i]));
+            assert(rec_val(rs[i], ss[i]));
             assert(ss[i] is Ok);
         }
         assert(!seq_any(rs, g));
